@@ -1,6 +1,7 @@
 package main
 
 import (
+	"math"
 	"context"
 	"fmt"
 	"math/rand"
@@ -130,12 +131,20 @@ func init() {
 			"(inconsistent combinations skipped and counted) x pairing {Failover/ShardedMap, Failover/SyncMap, FailoverOf/ShardedMapOf} x 4 repetitions alternating SyncRead off/on (thorough: 12 and custom UpdateTTL/FailedUpdateTTL values); " +
 			"each lone Get is judged against the documented outcome (result class, builder invocation count and timing, backend content and failure cache after quiescence, no lock left) and all pairings/repetitions of a cell must agree; " +
 			"distinct_nontrivial = number of distinct consistent cells executed (every cell is non-trivial: it fixes one row of the table)",
-		Required:    []string{"cells.executed", "runs", "runs.entry_deleted_during_build", "runs.noncomparable_values", "runs.after_recovered_builder_panic"},
+		Required:    []string{"cells.executed", "runs", "runs.entry_deleted_during_build", "runs.noncomparable_values", "runs.after_recovered_builder_panic", "runs.default_backend_with_janitor", "runs.extreme_max_staleness"},
 		Assumptions: []string{"README ambiguity for 'failure cached + stale value available': both the cached error and the stale value are accepted", "entry states use TTL margins (>=1s / 1h MaxStaleness / 2h+ too stale)"},
 	})
 }
 
 func runC03(b *Batch) {
+	if b.Only < 0 {
+		for i := 0; i < b.Pick(2, 24); i++ {
+			c03DefaultBackend(b, 900000+i)
+		}
+	} else if b.Only >= 900000 {
+		c03DefaultBackend(b, b.Only)
+		return
+	}
 	cells := c03Cells()
 	reps := b.Pick(4, 12)
 	if b.Index == 0 {
@@ -163,6 +172,10 @@ func runC03(b *Batch) {
 					if cell.FUT == 0 {
 						cfg.FailedUpdateTTL = []time.Duration{time.Minute, 24 * time.Hour}[rep%2]
 					}
+				}
+				if cell.MS > 0 && cell.State != "toostale" && rep%4 == 2 {
+					cfg.MaxStaleness = time.Duration(math.MaxInt64) // "any staleness is acceptable": same row as a finite bound that is not exceeded
+					b.R.Count("runs.extreme_max_staleness", 1)
 				}
 				cfg.Observe = rep%3 == 2 // nor on ObserveMutability, whatever the value type (the interface API stores non-comparable values too)
 				cfg.SliceVals = cfg.Observe && p[0] == "Failover"
